@@ -7,6 +7,7 @@ import (
 	"runtime"
 	"sync"
 	"sync/atomic"
+	"syscall"
 	"time"
 	"unsafe"
 )
@@ -231,7 +232,92 @@ func vcFDHandler(kind int, owner interface{}, fd int) {
 	}
 }
 
+// ------------------------------------------------------------------ fault injection (verifFault)
+
+// A fault rule makes the system call wrapper at Site fail with Errno: the first Skip
+// matching calls pass, then Count calls fail (Count <= 0: every further one), or - with
+// PerMille > 0 - each matching call fails with that probability (PRF of seed and call
+// number, so a run is reproducible given the schedule). FD >= 0 restricts the rule to one
+// descriptor number.
+type vcFaultRule struct {
+	Site     int
+	Errno    syscall.Errno
+	FD       int
+	Skip     int64
+	Count    int64
+	PerMille int
+	seen     int64
+	fired    int64
+}
+
+type vcFaultPlan struct {
+	Seed  uint64
+	Rules []*vcFaultRule
+}
+
+var (
+	vcFaultPtr   unsafe.Pointer   // *vcFaultPlan
+	vcFaultFired [32]uint64       // per site, whole process (evidence)
+	vcFaultCalls [32]uint64       // per site: wrapper calls seen while any plan was armed
+)
+
+const vpFaultBase = 200 // trace pseudo-points: 200+site, Arg = errno, Obj = descriptor
+
+func vcSetFaults(p *vcFaultPlan) { atomic.StorePointer(&vcFaultPtr, unsafe.Pointer(p)) }
+
+func (p *vcFaultPlan) Fired() (n int64) {
+	if p == nil {
+		return 0
+	}
+	for _, r := range p.Rules {
+		n += atomic.LoadInt64(&r.fired)
+	}
+	return n
+}
+
+func vcFaultHandler(site, fd int) syscall.Errno {
+	p := (*vcFaultPlan)(atomic.LoadPointer(&vcFaultPtr))
+	if p == nil {
+		return 0
+	}
+	if site >= 0 && site < len(vcFaultCalls) {
+		atomic.AddUint64(&vcFaultCalls[site], 1)
+	}
+	for _, r := range p.Rules {
+		if r.Site != site || (r.FD >= 0 && r.FD != fd) {
+			continue
+		}
+		k := atomic.AddInt64(&r.seen, 1)
+		hit := false
+		if r.PerMille > 0 {
+			hit = int(vfMix2(p.Seed^uint64(site)<<40, uint64(k))%1000) < r.PerMille
+		} else if k > r.Skip && (r.Count <= 0 || k <= r.Skip+r.Count) {
+			hit = true
+		}
+		if !hit {
+			continue
+		}
+		atomic.AddInt64(&r.fired, 1)
+		if site >= 0 && site < len(vcFaultFired) {
+			atomic.AddUint64(&vcFaultFired[site], 1)
+		}
+		if atomic.LoadInt32(&vcTraceOn) != 0 {
+			i := atomic.AddUint64(&vcRingIdx, 1) - 1
+			e := &vcRing[i%vcRingSize]
+			e.T, e.Point, e.Arg, e.Obj = vfNow(), int32(vpFaultBase+site), int32(r.Errno), uintptr(fd)
+			atomic.StoreUint64(&e.Seq, i+1)
+		}
+		return r.Errno
+	}
+	return 0
+}
+
+var vcFaultSiteNames = map[int]string{vfltSocket: "socket", vfltSockopt: "setsockopt", vfltConnect: "connect", vfltConnectSoError: "connect(SO_ERROR)",
+	vfltAccept: "accept", vfltEpollCreate: "epoll_create", vfltEpollCtlAdd: "epoll_ctl(ADD)", vfltEpollCtlDel: "epoll_ctl(DEL)", vfltEpollCtlMod: "epoll_ctl(MOD)",
+	vfltSendmsg: "sendmsg", vfltWritev: "writev", vfltReadv: "readv"}
+
 func vcInstallHooks() {
+	verifFaultHandler.Store(func(site, fd int) syscall.Errno { return vcFaultHandler(site, fd) })
 	verifPointHandler.Store(func(id int, obj interface{}, arg int) { vcPointHandler(id, obj, arg) })
 	verifFDHandler.Store(func(kind int, owner interface{}, fd int) { vcFDHandler(kind, owner, fd) })
 	atomic.StoreInt32(&vcTraceOn, 1)
@@ -256,6 +342,9 @@ func vcWaitPoint(mark uint64, point int, obj uintptr, d time.Duration) bool {
 }
 
 func vcPointName(id int) string {
+	if id >= vpFaultBase && id < vpFaultBase+vfltCount {
+		return "FAULT@" + vcFaultSiteNames[id-vpFaultBase]
+	}
 	if id >= 0 && id < len(verifPointNames) {
 		return verifPointNames[id]
 	}
